@@ -240,7 +240,9 @@ func (b *tableParagraphTransformer) parseRow(segment text.Segment,
 		row.AppendChild(row, node)
 		pos = closure + 1
 	}
-	for ; i < len(alignments); i++ {
+	// short body rows are padded with empty cells; the header row is not: it must
+	// match the delimiter row in the number of cells.
+	for ; !isHeader && i < len(alignments); i++ {
 		row.AppendChild(row, ast.NewTableCell())
 	}
 	return row
